@@ -4,7 +4,10 @@ package agentp
 
 import (
 	"fmt"
+	"net"
+	"regexp"
 	"sort"
+	"strconv"
 	"strings"
 	"sync"
 	"testing"
@@ -54,20 +57,38 @@ type c25Op struct {
 	B       bool       `json:"b,omitempty"`
 	T       int64      `json:"t,omitempty"` // query timeout, ns
 	Replies []c25Reply `json:"r,omitempty"`
+	C       int        `json:"c,omitempty"` // RPC connection the request goes to (0 primary, 1 second)
 }
 
 type c25Case struct {
 	Ops []c25Op `json:"ops"`
+	// SeqBase: the n-th request of a connection carries Seq SeqBase+10+n (both
+	// connections count from the same base, so their stream and query sequence
+	// numbers collide); the bases put the numbers around 2^32, 2^63 and the
+	// wrap-around of the 64-bit range
+	SeqBase uint64 `json:"seqbase,omitempty"`
+	// SlowWriteUs: every write of the agent on an RPC connection takes this
+	// long (the listener handed to the IPC server is the harness'): replies,
+	// records and completion records of concurrent streams pile up behind
+	// each other
+	SlowWriteUs int `json:"slow_write_us,omitempty"`
 	// StopRace, when set, replaces the session by the "stop while events flow"
 	// mode of c25_stoprace_test.go
 	StopRace *c25StopRace `json:"stop_race,omitempty"`
 }
 
 var (
-	c25Names   = []string{"deploy", "ping", "a"}
+	// names: next to plain ones a proper prefix and an extension of another
+	// name, the same name in another case, a name with the separator of the
+	// filter syntax in it, and the empty name
+	c25Names   = []string{"deploy", "ping", "a", "deploy", "dep", "deploy2", "Deploy", "deploy:x", ""}
 	c25Filters = []string{"*", "user", "user:deploy", "query", "member-join", "", "user:ping", "query:ping",
 		"member-leave,member-failed", "user:deploy,query", "member-join,user:a", "member-update", "query:deploy,user:ping",
-		"member-reap", "bogus", "user:deploy,bogus", "User"}
+		"member-reap", "bogus", "user:deploy,bogus", "User",
+		"user:dep", "query:dep", "user:Deploy", "user:deploy:x", "query:deploy:x", "user:", "query:", "user:deploy2,query:Deploy",
+		"user:deploy,user:deploy", "*,user", "member-reap,member-leave", "user:DEPLOY", " user"}
+	c25SeqBases = []uint64{0, 0, 0, 1<<32 - 20, 1<<63 - 20, 1<<64 - 14, 1<<64 - 30}
+	c25LogLevels = []string{"debug", "info", "INFO", "warn", "err", "trace", "bogus", ""}
 	c25Timeouts = []int64{1, 2, 3, 50, 1000, 20_000, 200_000, 1_000_000, 3_000_000, 10_000_000, 25_000_000, 50_000_000}
 	c25Fakes    = []string{"n1", "n2", "n3", "n4"}
 )
@@ -85,31 +106,50 @@ func genC25(t *rapid.T) c25Case {
 		}
 		return c
 	}
+	c.SeqBase = rapid.SampledFrom(c25SeqBases).Draw(t, "seqbase")
+	c.SlowWriteUs = rapid.SampledFrom([]int{0, 0, 0, 0, 30, 200, 1000}).Draw(t, "slowwrite")
+	second := rapid.IntRange(0, 2).Draw(t, "second") == 0 // the session uses a second RPC connection
 	n := rapid.IntRange(4, 28).Draw(t, "n")
 	streams := 0
 	for i := 0; i < n; i++ {
 		var op c25Op
 		kinds := []string{"user", "stream", "query", "event", "join", "fquery", "user", "query", "stop", "failed", "leave", "update",
-			"members", "stats", "respond", "sleep", "stream", "user", "event", "join", "fquery"}
+			"members", "stats", "respond", "sleep", "stream", "user", "event", "join", "fquery", "monitor", "prune", "failed"}
 		if streams == 0 && i < 3 {
 			kinds = []string{"stream", "stream", "query", "user"}
 		}
 		op.K = rapid.SampledFrom(kinds).Draw(t, "kind")
+		if second {
+			switch op.K {
+			case "stream", "stop", "query", "event", "members", "stats", "respond", "monitor", "prune":
+				op.C = rapid.SampledFrom([]int{0, 0, 1}).Draw(t, "conn")
+			}
+		}
 		switch op.K {
 		case "stream":
 			op.S = rapid.SampledFrom(c25Filters).Draw(t, "filter")
 			streams++
 		case "stop":
 			op.N = rapid.IntRange(0, 5).Draw(t, "which")
+		case "monitor":
+			op.S = rapid.SampledFrom(c25LogLevels).Draw(t, "level")
 		case "user":
 			op.S = rapid.SampledFrom(c25Names).Draw(t, "name")
-			op.N = rapid.SampledFrom([]int{0, 0, 0, 0, 1}).Draw(t, "ltmode")
+			// 0 fresh event, own payload; 1 exact duplicate of the previous one
+			// (Serf drops it); 2 fresh event whose payload equals that of others;
+			// 3 fresh event without payload
+			op.N = rapid.SampledFrom([]int{0, 0, 0, 0, 1, 2, 2, 3}).Draw(t, "ltmode")
 			op.B = rapid.Bool().Draw(t, "cc")
 		case "event":
 			op.S = rapid.SampledFrom(c25Names).Draw(t, "name")
+			op.N = rapid.SampledFrom([]int{0, 0, 2, 3}).Draw(t, "plmode")
 			op.B = rapid.Bool().Draw(t, "cc")
-		case "join", "leave", "failed", "update":
+		case "join", "leave", "failed", "update", "prune":
 			op.N = rapid.IntRange(0, 2).Draw(t, "node")
+			if op.K == "prune" {
+				op.B = rapid.Bool().Draw(t, "prune")
+				op.T = int64(rapid.IntRange(0, 1).Draw(t, "failfirst"))
+			}
 		case "fquery":
 			op.S = rapid.SampledFrom(c25Names).Draw(t, "name")
 			op.B = rapid.Bool().Draw(t, "ack")
@@ -194,6 +234,20 @@ func c25Match(spec string, e serf.Event) bool {
 	return false
 }
 
+// c25MemberDesc renders everything a member entry of a stream record says.
+func c25MemberDesc(name, status string, addr net.IP, port uint64, tags map[string]string, vs [6]uint64) string {
+	keys := make([]string, 0, len(tags))
+	for k := range tags {
+		keys = append(keys, k)
+	}
+	sort.Strings(keys)
+	var kv []string
+	for _, k := range keys {
+		kv = append(kv, fmt.Sprintf("%q=%q", k, tags[k]))
+	}
+	return fmt.Sprintf("%s/%s@%s:%d{%s}%v", name, status, addr.String(), port, strings.Join(kv, " "), vs)
+}
+
 // c25Desc renders an event the way its stream record must look.
 func c25Desc(e serf.Event) string {
 	switch ev := e.(type) {
@@ -204,7 +258,8 @@ func c25Desc(e serf.Event) string {
 	case serf.MemberEvent:
 		var names []string
 		for _, m := range ev.Members {
-			names = append(names, m.Name+"/"+m.Status.String())
+			names = append(names, c25MemberDesc(m.Name, m.Status.String(), m.Addr, uint64(m.Port), m.Tags,
+				[6]uint64{uint64(m.ProtocolMin), uint64(m.ProtocolMax), uint64(m.ProtocolCur), uint64(m.DelegateMin), uint64(m.DelegateMax), uint64(m.DelegateCur)}))
 		}
 		return fmt.Sprintf("%s|%s", ev.Type.String(), strings.Join(names, ","))
 	}
@@ -230,7 +285,18 @@ func c25RecDesc(m map[string]any) string {
 				if mm, ok := x.(map[string]any); ok {
 					n, _ := asString(mm["Name"])
 					st, _ := asString(mm["Status"])
-					names = append(names, n+"/"+st)
+					port, _ := asUint(mm["Port"])
+					tags := map[string]string{}
+					if tm, ok := mm["Tags"].(map[string]any); ok {
+						for k, v := range tm {
+							tags[k], _ = asString(v)
+						}
+					}
+					var vs [6]uint64
+					for i, k := range []string{"ProtocolMin", "ProtocolMax", "ProtocolCur", "DelegateMin", "DelegateMax", "DelegateCur"} {
+						vs[i], _ = asUint(mm[k])
+					}
+					names = append(names, c25MemberDesc(n, st, net.IP(asBytes(mm["Addr"])), port, tags, vs))
 				}
 			}
 		}
@@ -248,6 +314,17 @@ type c25Stream struct {
 	recs    []map[string]any
 }
 
+// c25Monitor is one log stream (RPC monitor).
+type c25Monitor struct {
+	seq      uint64
+	level    string
+	rank     int // rank of the requested level, -1 unknown
+	openSync int // number of the last sync event emitted before the registration was complete
+	stopSync int // number of the last sync event emitted before the stop was acknowledged; -1 while registered
+	lines    int
+	syncSeen []int // sync events whose "Received event" line the stream carried, in order of arrival
+}
+
 type c25QRec struct{ typ, from, payload string }
 
 type c25Query struct {
@@ -262,37 +339,72 @@ type c25Query struct {
 	lateRepl bool // some reply was injected at/after the deadline or the timeout is sub-microsecond
 }
 
+// c25Shared is what the connections of one session have in common.
+type c25Shared struct {
+	x     *vkit.Ctx
+	r     *rig
+	mon   *vkit.Monitor
+	syncN int
+	wg    sync.WaitGroup
+	all   []*c25Sess
+}
+
+// c25Sess is the harness' view of one RPC connection.
 type c25Sess struct {
-	x       *vkit.Ctx
-	r       *rig
-	cl      *rawClient
-	mon     *vkit.Monitor
-	nsent   uint64
-	kind    map[uint64]string // seq -> "plain" | "body" | "stream" | "query"
-	headers map[uint64]int    // headers seen per seq
-	first   map[uint64]wireVal
-	pending *wireVal // header waiting for its body
-	streams []*c25Stream
-	bySeq   map[uint64]*c25Stream
-	queries map[uint64]*c25Query
-	qorder  []*c25Query
-	lastQID uint64
-	lastQNm string // payload of the query behind lastQID
-	haveQID bool
-	syncN   int
-	log     []string
-	wg      sync.WaitGroup
+	*c25Shared
+	tag      string // "A" (primary) or "B"
+	base     uint64 // request n carries Seq base+10+n
+	cl       *rawClient
+	nsent    uint64
+	kind     map[uint64]string // seq -> "plain" | "body" | "stream" | "query" | "monitor"
+	headers  map[uint64]int    // headers seen per seq
+	first    map[uint64]wireVal
+	pending  *wireVal // header waiting for its body
+	streams  []*c25Stream
+	bySeq    map[uint64]*c25Stream
+	monitors map[uint64]*c25Monitor
+	monOrder []*c25Monitor
+	queries  map[uint64]*c25Query
+	qorder   []*c25Query
+	lastQID  uint64
+	lastQNm  string // payload of the query behind lastQID
+	haveQID  bool
+	log      []string
 }
 
 const c25Wait = 6 * time.Second
+
+var (
+	c25LevelRank = map[string]int{"TRACE": 0, "DEBUG": 1, "INFO": 2, "WARN": 3, "ERR": 4}
+	c25SyncLine  = regexp.MustCompile(`Received event: user-event: zz-sync-(\d+)$`)
+)
+
+// c25LineLevel is the level of a log line as the documented filter reads it:
+// the first bracketed token; -1 when that is not a level.
+func c25LineLevel(line string) int {
+	x := strings.IndexByte(line, '[')
+	if x < 0 {
+		return -1
+	}
+	y := strings.IndexByte(line[x:], ']')
+	if y < 0 {
+		return -1
+	}
+	if r, ok := c25LevelRank[line[x+1:x+y]]; ok {
+		return r
+	}
+	return -1
+}
 
 func (s *c25Sess) trace() string {
 	l := s.log
 	if len(l) > 40 {
 		l = l[len(l)-40:]
 	}
-	return strings.Join(l, " ")
+	return "connection " + s.tag + ": " + strings.Join(l, " ")
 }
+
+func (s *c25Sess) seqOf(n uint64) uint64 { return s.base + 10 + n }
 
 // handle consumes one value from the wire: framing, correlation, dispatch.
 func (s *c25Sess) handle(v wireVal) bool {
@@ -317,6 +429,31 @@ func (s *c25Sess) handle(v wireVal) bool {
 					s.lastQID, s.haveQID = id, true
 					s.lastQNm = string(asBytes(v.Map["Payload"]))
 				}
+			}
+		case "monitor":
+			mo := s.monitors[h.Seq]
+			lv, has := v.Map["Log"]
+			line, isStr := asString(lv)
+			if !has || lv == nil || !isStr || len(v.Map) != 1 {
+				s.x.Violationf("malformed-log-record", "monitor Seq %d: record is not {Log: string}: %v", h.Seq, v)
+				return false
+			}
+			mo.lines++
+			if lr := c25LineLevel(line); lr >= 0 && mo.rank >= 0 && lr < mo.rank {
+				s.x.Violationf("monitor-below-level", "monitor Seq %d asked for level %s and got the line %q", h.Seq, mo.level, line)
+				return false
+			}
+			if m := c25SyncLine.FindStringSubmatch(line); m != nil {
+				k, _ := strconv.Atoi(m[1])
+				if mo.stopSync >= 0 && k > mo.stopSync {
+					s.x.Violationf("monitor-record-after-stop", "monitor Seq %d was stopped (stop acknowledged) before sync event %d was emitted, yet it carried the line %q (trace: %s)", h.Seq, k, line, s.trace())
+					return false
+				}
+				if n := len(mo.syncSeen); n > 0 && mo.syncSeen[n-1] >= k {
+					s.x.Violationf("monitor-lines-out-of-order", "monitor Seq %d: line of sync event %d after that of sync event %d", h.Seq, k, mo.syncSeen[n-1])
+					return false
+				}
+				mo.syncSeen = append(mo.syncSeen, k)
 			}
 		case "query":
 			q := s.queries[h.Seq]
@@ -376,8 +513,10 @@ func (s *c25Sess) handle(v wireVal) bool {
 		s.x.Violationf("unexpected-body", "a body arrived where a header was expected: %v (trace: %s)", v, s.trace())
 		return false
 	}
-	if v.Seq < 11 || v.Seq > 10+uint64(v.SentAt) || v.Seq > 10+s.nsent {
-		s.x.Violationf("unknown-seq", "header carries Seq %d, but only requests 11..%d had been written (trace: %s)", v.Seq, 10+v.SentAt, s.trace())
+	// requests 1..n of this connection carry base+11 .. base+10+n (the sum may
+	// wrap around; the difference does not)
+	if d := v.Seq - s.base - 10; d < 1 || d > uint64(v.SentAt) || d > s.nsent {
+		s.x.Violationf("unknown-seq", "header carries Seq %d, but only requests with Seq %d..%d had been written on this connection (trace: %s)", v.Seq, s.seqOf(1), s.seqOf(uint64(v.SentAt)), s.trace())
 		return false
 	}
 	s.headers[v.Seq]++
@@ -395,7 +534,7 @@ func (s *c25Sess) handle(v wireVal) bool {
 		if k == "body" && v.Err == "" {
 			s.pending = &v
 		}
-	case k == "stream" || k == "query":
+	case k == "stream" || k == "query" || k == "monitor":
 		if nth > 1 {
 			if first := s.first[v.Seq]; first.Err != "" {
 				s.x.Violationf("record-for-refused-request", "Seq %d (%s) was refused (%q) but later got %v", v.Seq, k, first.Err, v)
@@ -449,10 +588,19 @@ func (s *c25Sess) drain() bool {
 	}
 }
 
+func (sh *c25Shared) drainAll() bool {
+	for _, s := range sh.all {
+		if !s.drain() {
+			return false
+		}
+	}
+	return true
+}
+
 // request writes one request and waits for its first header (and body).
 func (s *c25Sess) request(kind, cmd string, body any) (wireVal, bool) {
 	s.nsent++
-	seq := 10 + s.nsent
+	seq := s.seqOf(s.nsent)
 	s.kind[seq] = kind
 	s.log = append(s.log, fmt.Sprintf("> %s#%d", cmd, seq))
 	vals := []any{hdr(cmd, seq)}
@@ -460,6 +608,15 @@ func (s *c25Sess) request(kind, cmd string, body any) (wireVal, bool) {
 		vals = append(vals, body)
 	}
 	return s.await(seq, cmd, vals)
+}
+
+// barrier is one more round trip on the connection that changes nothing: a
+// stop naming its own sequence number (which is no stream). The agent handles
+// the requests of a connection one after the other, so whatever the previous
+// request left to do after its reply (registering a stream) is done.
+func (s *c25Sess) barrier() bool {
+	_, ok := s.request("plain", "stop", map[string]any{"Stop": s.seqOf(s.nsent + 1)})
+	return ok
 }
 
 func (s *c25Sess) await(seq uint64, cmd string, vals []any) (wireVal, bool) {
@@ -485,17 +642,17 @@ func (s *c25Sess) await(seq uint64, cmd string, vals []any) (wireVal, bool) {
 
 // quiesce makes sure every event enqueued so far has been handed to every
 // registered handler: it emits a uniquely named user event, waits for the
-// reference handler to see it and for every registered stream whose filter
-// matches it to deliver its record.
-func (s *c25Sess) quiesce() bool {
-	s.syncN++
-	name := fmt.Sprintf("zz-sync-%d", s.syncN)
-	if err := s.r.agent.UserEvent(name, nil, false); err != nil {
-		s.x.Inconclusive("sync event failed: " + err.Error())
+// reference handler to see it and, on every connection, for every registered
+// stream whose filter matches it to deliver its record.
+func (sh *c25Shared) quiesce() bool {
+	sh.syncN++
+	name := fmt.Sprintf("zz-sync-%d", sh.syncN)
+	if err := sh.r.agent.UserEvent(name, nil, false); err != nil {
+		sh.x.Inconclusive("sync event failed: " + err.Error())
 		return false
 	}
-	if !s.r.rec.waitFor(c25Wait, func(ev []serf.Event) bool { return sawUser(ev, name) }) {
-		s.x.Inconclusive("sync event not dispatched in time")
+	if !sh.r.rec.waitFor(c25Wait, func(ev []serf.Event) bool { return sawUser(ev, name) }) {
+		sh.x.Inconclusive("sync event not dispatched in time")
 		return false
 	}
 	probe := serf.UserEvent{Name: name}
@@ -507,39 +664,84 @@ func (s *c25Sess) quiesce() bool {
 		}
 		return false
 	}
-	s.mon.MaxGap()
-	ok, to := s.pump(func() bool {
-		for _, st := range s.streams {
-			if st.closeAt < 0 && c25Match(st.filter, probe) && !has(st) {
-				return false
+	for _, s := range sh.all {
+		sh.mon.MaxGap()
+		ok, to := s.pump(func() bool {
+			for _, st := range s.streams {
+				if st.closeAt < 0 && c25Match(st.filter, probe) && !has(st) {
+					return false
+				}
 			}
-		}
-		return true
-	}, c25Wait, "sync records")
-	if !ok {
-		return false
-	}
-	if to {
-		if s.mon.MaxGap() > time.Second {
-			s.x.Inconclusive("starved while waiting for sync records")
+			return true
+		}, c25Wait, "sync records")
+		if !ok {
 			return false
 		}
-		for _, st := range s.streams {
-			if st.closeAt < 0 && c25Match(st.filter, probe) && !has(st) {
-				s.x.Violationf("stream-missing-event", "stream Seq %d (filter %q) did not deliver user event %q within %v although the agent dispatched it (trace: %s)", st.seq, st.filter, name, c25Wait, s.trace())
+		if to {
+			if sh.mon.MaxGap() > time.Second {
+				sh.x.Inconclusive("starved while waiting for sync records")
 				return false
+			}
+			for _, st := range s.streams {
+				if st.closeAt < 0 && c25Match(st.filter, probe) && !has(st) {
+					sh.x.Violationf("stream-missing-event", "stream Seq %d (filter %q) did not deliver user event %q within %v although the agent dispatched it (trace: %s)", st.seq, st.filter, name, c25Wait, s.trace())
+					return false
+				}
 			}
 		}
 	}
 	return true
 }
 
-func (s *c25Sess) inject(t uint8, msg any) {
+func (sh *c25Shared) inject(t uint8, msg any) {
 	buf, err := serf.VerifEncodeMessage(t, msg, false)
 	if err != nil {
 		panic(err)
 	}
-	s.r.agent.Serf().VerifDelegate().NotifyMsg(buf)
+	sh.r.agent.Serf().VerifDelegate().NotifyMsg(buf)
+}
+
+// connect opens one more RPC connection and shakes hands on it.
+func (sh *c25Shared) connect(tag string, base uint64) *c25Sess {
+	cl, err := dialRaw(sh.r.addr())
+	if err != nil {
+		sh.x.Inconclusive("dial: " + err.Error())
+		return nil
+	}
+	s := &c25Sess{c25Shared: sh, tag: tag, base: base, cl: cl, kind: map[uint64]string{}, headers: map[uint64]int{}, first: map[uint64]wireVal{},
+		bySeq: map[uint64]*c25Stream{}, monitors: map[uint64]*c25Monitor{}, queries: map[uint64]*c25Query{}}
+	sh.all = append(sh.all, s)
+	if v, ok := s.request("plain", "handshake", map[string]any{"Version": 1}); !ok {
+		return nil
+	} else if v.Err != "" {
+		sh.x.Inconclusive("handshake refused: " + v.Err)
+		return nil
+	}
+	return s
+}
+
+// slowListener hands the IPC server connections whose writes take a while.
+type slowListener struct {
+	net.Listener
+	d time.Duration
+}
+
+type slowConn struct {
+	net.Conn
+	d time.Duration
+}
+
+func (l *slowListener) Accept() (net.Conn, error) {
+	c, err := l.Listener.Accept()
+	if err != nil {
+		return nil, err
+	}
+	return &slowConn{Conn: c, d: l.d}, nil
+}
+
+func (c *slowConn) Write(p []byte) (int, error) {
+	time.Sleep(c.d)
+	return c.Conn.Write(p)
 }
 
 func bodyC25(c c25Case, x *vkit.Ctx) {
@@ -547,44 +749,69 @@ func bodyC25(c c25Case, x *vkit.Ctx) {
 		bodyC25StopRace(c.StopRace, x)
 		return
 	}
-	r, err := newRig(rigOpts{Loopback: true})
+	ro := rigOpts{Loopback: true}
+	if c.SlowWriteUs > 0 {
+		d := time.Duration(min(c.SlowWriteUs, 2000)) * time.Microsecond
+		ro.WrapListener = func(l net.Listener) net.Listener { return &slowListener{Listener: l, d: d} }
+		x.Labelf("slow-writes=%v", d)
+	}
+	r, err := newRig(ro)
 	if err != nil {
 		x.Inconclusive("rig: " + err.Error())
 		return
 	}
 	defer r.close()
-	cl, err := dialRaw(r.addr())
-	if err != nil {
-		x.Inconclusive("dial: " + err.Error())
-		return
-	}
-	defer cl.close()
 	mon := vkit.StartMonitor()
 	defer mon.Stop()
-	s := &c25Sess{x: x, r: r, cl: cl, mon: mon, kind: map[uint64]string{}, headers: map[uint64]int{}, first: map[uint64]wireVal{},
-		bySeq: map[uint64]*c25Stream{}, queries: map[uint64]*c25Query{}}
-	defer s.wg.Wait()
+	sh := &c25Shared{x: x, r: r, mon: mon}
+	defer func() {
+		for _, s := range sh.all {
+			s.cl.close()
+		}
+	}()
+	defer sh.wg.Wait()
+	if c.SeqBase != 0 {
+		x.Label("seq-base-special")
+	}
 
-	if v, ok := s.request("plain", "handshake", map[string]any{"Version": 1}); !ok {
-		return
-	} else if v.Err != "" {
-		x.Inconclusive("handshake refused: " + v.Err)
+	sA := sh.connect("A", c.SeqBase)
+	if sA == nil {
 		return
 	}
+	var sB *c25Sess
 	sf := r.agent.Serf()
 	local := r.conf.NodeName
 	userLT, queryLT, memberLT := serf.LamportTime(100), serf.LamportTime(100), serf.LamportTime(100)
 	var lastUser *serf.VerifMessageUserEvent
 	metaN := 0
+	payloadOf := func(mode, i int, prefix string) []byte {
+		switch mode {
+		case 2:
+			return []byte("same") // byte-equal payloads in distinct events
+		case 3:
+			return nil
+		}
+		return []byte(fmt.Sprintf("%s%d", prefix, i))
+	}
 
 	for i, op := range c.Ops {
+		s := sA
+		if op.C == 1 {
+			if sB == nil {
+				if sB = sh.connect("B", c.SeqBase); sB == nil {
+					return
+				}
+				x.Label("second-connection")
+			}
+			s = sB
+		}
 		switch op.K {
 		case "stream":
-			if !s.quiesce() {
+			if !sh.quiesce() {
 				return
 			}
 			s.nsent++
-			seq := 10 + s.nsent
+			seq := s.seqOf(s.nsent)
 			s.kind[seq] = "stream"
 			st := &c25Stream{seq: seq, filter: op.S, closeAt: -1}
 			s.bySeq[seq] = st
@@ -595,19 +822,53 @@ func bodyC25(c c25Case, x *vkit.Ctx) {
 			}
 			if v.Err != "" {
 				if c25FilterValid(op.S) {
-					x.Label("valid-filter-refused")
-				} else {
-					x.Label("invalid-filter-refused")
+					// a documented filter on a sequence number this connection has
+					// no stream for: nothing allows the agent to refuse it
+					x.Violationf("valid-stream-refused", "connection %s: stream request Seq %d with the valid filter %q was refused: %q (trace: %s)", s.tag, seq, op.S, v.Err, s.trace())
+					return
 				}
+				x.Label("invalid-filter-refused")
 				continue
 			}
 			// the registration happens after the reply was written: a second
 			// round trip makes sure it is complete before anything else happens
-			if _, ok := s.request("plain", "stop", map[string]any{"Stop": uint64(0)}); !ok {
+			if !s.barrier() {
 				return
 			}
 			st.openAt = r.rec.count()
 			s.streams = append(s.streams, st)
+			for _, o := range sh.all {
+				if o != s && o.bySeq[seq] != nil && o.bySeq[seq].closeAt < 0 && o.first[seq].Err == "" {
+					x.Label("same-seq-streams-on-two-connections")
+				}
+			}
+		case "monitor":
+			if !sh.quiesce() {
+				return
+			}
+			s.nsent++
+			seq := s.seqOf(s.nsent)
+			s.kind[seq] = "monitor"
+			mo := &c25Monitor{seq: seq, level: strings.ToUpper(op.S), rank: -1, stopSync: -1}
+			if rk, ok := c25LevelRank[mo.level]; ok {
+				mo.rank = rk
+			}
+			s.monitors[seq] = mo
+			s.log = append(s.log, fmt.Sprintf("> monitor(%q)#%d", op.S, seq))
+			v, ok := s.await(seq, "monitor", []any{hdr("monitor", seq), map[string]any{"LogLevel": op.S}})
+			if !ok {
+				return
+			}
+			if v.Err != "" {
+				x.Label("monitor-refused")
+				continue
+			}
+			if !s.barrier() {
+				return
+			}
+			mo.openSync = sh.syncN
+			s.monOrder = append(s.monOrder, mo)
+			x.Label("monitor-open")
 		case "stop":
 			var open []*c25Stream
 			for _, st := range s.streams {
@@ -615,35 +876,54 @@ func bodyC25(c c25Case, x *vkit.Ctx) {
 					open = append(open, st)
 				}
 			}
-			if len(open) == 0 {
+			var openMon []*c25Monitor
+			for _, mo := range s.monOrder {
+				if mo.stopSync < 0 {
+					openMon = append(openMon, mo)
+				}
+			}
+			if len(open)+len(openMon) == 0 {
 				continue
 			}
-			st := open[op.N%len(open)]
-			if !s.quiesce() {
+			if !sh.quiesce() {
 				return
 			}
-			if _, ok := s.request("plain", "stop", map[string]any{"Stop": st.seq}); !ok {
-				return
+			k := op.N % (len(open) + len(openMon))
+			if len(openMon) > 0 && op.N%2 == 1 {
+				k = len(open) // odd choices go for the log stream when there is one
 			}
-			st.closeAt = r.rec.count()
-			x.Label("stream-stopped")
+			if k < len(open) {
+				st := open[k]
+				if _, ok := s.request("plain", "stop", map[string]any{"Stop": st.seq}); !ok {
+					return
+				}
+				st.closeAt = r.rec.count()
+				x.Label("stream-stopped")
+			} else {
+				mo := openMon[k-len(open)]
+				if _, ok := s.request("plain", "stop", map[string]any{"Stop": mo.seq}); !ok {
+					return
+				}
+				mo.stopSync = sh.syncN
+				x.Label("monitor-stopped")
+			}
 		case "user":
-			m := &serf.VerifMessageUserEvent{LTime: userLT, Name: op.S, Payload: []byte(fmt.Sprintf("u%d", i)), CC: op.B}
+			m := &serf.VerifMessageUserEvent{LTime: userLT, Name: op.S, Payload: payloadOf(op.N, i, "u"), CC: op.B}
 			if op.N == 1 && lastUser != nil {
 				m = lastUser // an exact duplicate: Serf must drop it
 			} else {
 				userLT++
 			}
 			lastUser = m
-			s.inject(serf.VerifMessageUserEventType, m)
+			sh.inject(serf.VerifMessageUserEventType, m)
 		case "event":
-			if _, ok := s.request("plain", "event", map[string]any{"Name": op.S, "Payload": []byte(fmt.Sprintf("e%d", i)), "Coalesce": op.B}); !ok {
+			if _, ok := s.request("plain", "event", map[string]any{"Name": op.S, "Payload": payloadOf(op.N, i, "e"), "Coalesce": op.B}); !ok {
 				return
 			}
 		case "join", "update":
 			metaN++
-			meta := sf.VerifEncodeTags(map[string]string{"v": fmt.Sprint(metaN)})
-			n := node.MLNode(c25Fakes[op.N], fmt.Sprintf("10.1.0.%d", op.N+1), 7946, meta, 5, 5)
+			meta := sf.VerifEncodeTags(map[string]string{"v": fmt.Sprint(metaN), "role": c25Fakes[op.N]})
+			n := node.MLNode(c25Fakes[op.N], fmt.Sprintf("10.1.0.%d", op.N+1), uint16(7946+op.N), meta, 5, 5)
 			if op.K == "join" {
 				sf.VerifEventDelegate().NotifyJoin(n)
 			} else {
@@ -652,17 +932,30 @@ func bodyC25(c c25Case, x *vkit.Ctx) {
 		case "leave", "failed":
 			if op.K == "leave" {
 				memberLT++
-				s.inject(serf.VerifMessageLeaveType, &serf.VerifMessageLeave{LTime: memberLT, Node: c25Fakes[op.N]})
+				sh.inject(serf.VerifMessageLeaveType, &serf.VerifMessageLeave{LTime: memberLT, Node: c25Fakes[op.N]})
 			}
-			n := node.MLNode(c25Fakes[op.N], fmt.Sprintf("10.1.0.%d", op.N+1), 7946, nil, 5, 5)
+			n := node.MLNode(c25Fakes[op.N], fmt.Sprintf("10.1.0.%d", op.N+1), uint16(7946+op.N), nil, 5, 5)
 			sf.VerifEventDelegate().NotifyLeave(n)
+		case "prune":
+			// RPC force-leave, with or without prune: a failed member becomes
+			// left, a pruned one is reaped (member-reap events)
+			if op.T == 1 {
+				// make sure the target is a failed member (joined, then lost)
+				n := node.MLNode(c25Fakes[op.N], fmt.Sprintf("10.1.0.%d", op.N+1), uint16(7946+op.N), nil, 5, 5)
+				sf.VerifEventDelegate().NotifyJoin(n)
+				sf.VerifEventDelegate().NotifyLeave(n)
+			}
+			if _, ok := s.request("plain", "force-leave", map[string]any{"Node": c25Fakes[op.N], "Prune": op.B}); !ok {
+				return
+			}
+			x.Label("force-leave")
 		case "fquery":
 			queryLT++
 			var flags uint32
 			if op.B {
 				flags = serf.VerifQueryFlagAck
 			}
-			s.inject(serf.VerifMessageQueryType, &serf.VerifMessageQuery{LTime: queryLT, ID: uint32(7000 + i), Addr: []byte{10, 1, 0, 9}, Port: 7946,
+			sh.inject(serf.VerifMessageQueryType, &serf.VerifMessageQuery{LTime: queryLT, ID: uint32(7000 + i), Addr: []byte{10, 1, 0, 9}, Port: 7946,
 				SourceNode: "far", Flags: flags, Timeout: 30 * time.Millisecond, Name: op.S, Payload: []byte(fmt.Sprintf("f%d", i))})
 		case "members", "stats":
 			if _, ok := s.request("body", op.K, nil); !ok {
@@ -677,14 +970,16 @@ func bodyC25(c c25Case, x *vkit.Ctx) {
 			// if the ID belongs to one of our own queries, the local node is a
 			// genuine responder for it with this payload
 			if s.haveQID {
-				for _, q := range s.qorder {
-					if fmt.Sprintf("rq%d", q.op) == s.lastQNm {
-						q.mu.Lock()
-						if q.resps[local] == nil {
-							q.resps[local] = map[string]bool{}
+				for _, o := range sh.all {
+					for _, q := range o.qorder {
+						if fmt.Sprintf("rq%d", q.op) == s.lastQNm {
+							q.mu.Lock()
+							if q.resps[local] == nil {
+								q.resps[local] = map[string]bool{}
+							}
+							q.resps[local][pl] = true
+							q.mu.Unlock()
 						}
-						q.resps[local][pl] = true
-						q.mu.Unlock()
 					}
 				}
 			}
@@ -696,7 +991,7 @@ func bodyC25(c c25Case, x *vkit.Ctx) {
 			time.Sleep(time.Duration(op.N) * time.Microsecond)
 		case "query":
 			s.nsent++
-			seq := 10 + s.nsent
+			seq := s.seqOf(s.nsent)
 			s.kind[seq] = "query"
 			timeout := time.Duration(op.T)
 			q := &c25Query{seq: seq, op: i, timeout: timeout, acks: map[string]bool{}, resps: map[string]map[string]bool{}}
@@ -763,9 +1058,9 @@ func bodyC25(c c25Case, x *vkit.Ctx) {
 				}
 				q.mu.Unlock()
 			}
-			s.wg.Add(1)
+			sh.wg.Add(1)
 			go func() {
-				defer s.wg.Done()
+				defer sh.wg.Done()
 				for _, rp := range replies {
 					off := timeout * time.Duration(rp.AtPct) / 100
 					if rp.AtPct > 100 { // "after the deadline" need not be long after
@@ -790,134 +1085,186 @@ func bodyC25(c c25Case, x *vkit.Ctx) {
 				}
 			}()
 		}
-		if !s.drain() {
+		if !sh.drainAll() {
 			return
 		}
 	}
 
 	// ---- end of session
-	s.wg.Wait()
-	mon.MaxGap()
+	sh.wg.Wait()
 	started := 0
-	for _, q := range s.qorder {
-		if s.first[q.seq].Err == "" && s.headers[q.seq] > 0 {
-			started++
-		}
-	}
-	ok, to := s.pump(func() bool {
+	for _, s := range sh.all {
+		mon.MaxGap()
 		for _, q := range s.qorder {
-			if s.first[q.seq].Err == "" && q.done == 0 {
-				return false
+			if s.first[q.seq].Err == "" && s.headers[q.seq] > 0 {
+				started++
 			}
 		}
-		return true
-	}, c25Wait, "query completion")
-	if !ok {
-		return
-	}
-	if to {
-		if mon.MaxGap() > time.Second {
-			x.Inconclusive("starved while waiting for query completion")
+		ok, to := s.pump(func() bool {
+			for _, q := range s.qorder {
+				if s.first[q.seq].Err == "" && q.done == 0 {
+					return false
+				}
+			}
+			return true
+		}, c25Wait, "query completion")
+		if !ok {
 			return
 		}
-		for _, q := range s.qorder {
-			if s.first[q.seq].Err == "" && q.done == 0 {
-				x.Violationf("query-never-done", "query Seq %d (timeout %v) got no done record within %v after its deadline (records: %v)", q.seq, q.timeout, c25Wait, q.recs)
+		if to {
+			if mon.MaxGap() > time.Second {
+				x.Inconclusive("starved while waiting for query completion")
 				return
+			}
+			for _, q := range s.qorder {
+				if s.first[q.seq].Err == "" && q.done == 0 {
+					x.Violationf("query-never-done", "query Seq %d (timeout %v) got no done record within %v after its deadline (records: %v)", q.seq, q.timeout, c25Wait, q.recs)
+					return
+				}
 			}
 		}
 	}
-	if !s.quiesce() {
+	if !sh.quiesce() {
 		return
 	}
 	ref := r.rec.snapshot()
 	expected := map[*c25Stream][]string{}
-	for _, st := range s.streams {
-		end := len(ref)
-		if st.closeAt >= 0 {
-			end = st.closeAt
+	// monWant: the sync events a log stream at INFO or below must carry a line for
+	monWant := func(mo *c25Monitor) (from, to int) {
+		to = sh.syncN
+		if mo.stopSync >= 0 {
+			to = mo.stopSync
 		}
-		for _, e := range ref[st.openAt:end] {
-			if c25Match(st.filter, e) {
-				expected[st] = append(expected[st], c25Desc(e))
+		return mo.openSync + 1, to
+	}
+	monHas := func(mo *c25Monitor) bool {
+		from, to := monWant(mo)
+		n := 0
+		for _, k := range mo.syncSeen {
+			if k >= from && k <= to {
+				n++
 			}
 		}
+		return n >= to-from+1
 	}
-	mon.MaxGap()
-	ok, to = s.pump(func() bool {
+	starved := false
+	for _, s := range sh.all {
 		for _, st := range s.streams {
-			if len(st.recs) < len(expected[st]) {
-				return false
+			end := len(ref)
+			if st.closeAt >= 0 {
+				end = st.closeAt
+			}
+			for _, e := range ref[st.openAt:end] {
+				if c25Match(st.filter, e) {
+					expected[st] = append(expected[st], c25Desc(e))
+				}
 			}
 		}
-		return true
-	}, c25Wait, "stream records")
-	if !ok {
-		return
+		mon.MaxGap()
+		ok, to := s.pump(func() bool {
+			for _, st := range s.streams {
+				if len(st.recs) < len(expected[st]) {
+					return false
+				}
+			}
+			for _, mo := range s.monOrder {
+				if mo.rank >= 0 && mo.rank <= c25LevelRank["INFO"] && !monHas(mo) {
+					return false
+				}
+			}
+			return true
+		}, c25Wait, "stream records")
+		if !ok {
+			return
+		}
+		if to && mon.MaxGap() > time.Second {
+			starved = true
+		}
 	}
-	starved := to && mon.MaxGap() > time.Second
 	// give stray records (second done, records of stopped streams, ...) a moment
-	time.Sleep(3 * time.Millisecond)
-	if !s.drain() {
+	time.Sleep(3*time.Millisecond + 4*time.Duration(c.SlowWriteUs)*time.Microsecond)
+	if !sh.drainAll() {
 		return
 	}
-	if s.pending != nil {
-		if ok, _ := s.pump(func() bool { return true }, time.Second, "trailing body"); !ok {
-			return
-		}
-	}
-	for _, st := range s.streams {
-		exp := expected[st]
-		for j, m := range st.recs {
-			got := c25RecDesc(m)
-			if j >= len(exp) {
-				x.Violationf("stream-extra-event", "stream Seq %d (filter %q): record #%d %q has no counterpart among the %d matching events the agent dispatched while it was registered", st.seq, st.filter, j, got, len(exp))
+	for _, s := range sh.all {
+		if s.pending != nil {
+			if ok, _ := s.pump(func() bool { return true }, time.Second, "trailing body"); !ok {
 				return
 			}
-			if got != exp[j] {
-				sig := "stream-wrong-event"
-				matches := false
-				for _, e := range exp {
-					if e == got {
-						matches = true
+		}
+	}
+	for _, s := range sh.all {
+		for _, st := range s.streams {
+			exp := expected[st]
+			for j, m := range st.recs {
+				got := c25RecDesc(m)
+				if j >= len(exp) {
+					x.Violationf("stream-extra-event", "connection %s, stream Seq %d (filter %q): record #%d %q has no counterpart among the %d matching events the agent dispatched while it was registered", s.tag, st.seq, st.filter, j, got, len(exp))
+					return
+				}
+				if got != exp[j] {
+					sig := "stream-wrong-event"
+					matches := false
+					for _, e := range exp {
+						if e == got {
+							matches = true
+						}
 					}
+					if !matches {
+						sig = "stream-nonmatching-event"
+					}
+					x.Violationf(sig, "connection %s, stream Seq %d (filter %q): record #%d is %q, expected %q (expected sequence %v)", s.tag, st.seq, st.filter, j, got, exp[j], exp)
+					return
 				}
-				if !matches {
-					sig = "stream-nonmatching-event"
+			}
+			if len(st.recs) < len(exp) {
+				if starved {
+					x.Inconclusive("starved while waiting for stream records")
+					return
 				}
-				x.Violationf(sig, "stream Seq %d (filter %q): record #%d is %q, expected %q (expected sequence %v)", st.seq, st.filter, j, got, exp[j], exp)
+				x.Violationf("stream-missing-event", "connection %s, stream Seq %d (filter %q) delivered %d of %d matching events within %v; first missing %q", s.tag, st.seq, st.filter, len(st.recs), len(exp), c25Wait, exp[len(st.recs)])
 				return
 			}
 		}
-		if len(st.recs) < len(exp) {
-			if starved {
-				x.Inconclusive("starved while waiting for stream records")
+		for _, mo := range s.monOrder {
+			if mo.rank >= 0 && mo.rank <= c25LevelRank["INFO"] && !monHas(mo) {
+				if starved {
+					x.Inconclusive("starved while waiting for log records")
+					return
+				}
+				from, to := monWant(mo)
+				x.Violationf("monitor-missing-line", "connection %s, monitor Seq %d (level %s) was registered while sync events %d..%d were dispatched (each logged at INFO), but carried lines only for %v (%d lines in all)", s.tag, mo.seq, mo.level, from, to, mo.syncSeen, mo.lines)
 				return
 			}
-			x.Violationf("stream-missing-event", "stream Seq %d (filter %q) delivered %d of %d matching events within %v; first missing %q", st.seq, st.filter, len(st.recs), len(exp), c25Wait, exp[len(st.recs)])
-			return
+			if mo.lines > 0 {
+				x.Label("monitor-lines-delivered")
+			}
 		}
-	}
-	for _, q := range s.qorder {
-		if q.done > 1 {
-			x.Violationf("done-twice", "query Seq %d: %d done records", q.seq, q.done)
-			return
+		for _, q := range s.qorder {
+			if q.done > 1 {
+				x.Violationf("done-twice", "query Seq %d: %d done records", q.seq, q.done)
+				return
+			}
 		}
 	}
 
 	// ---- labels and non-triviality
 	lateQuery, shared := false, false
-	for _, q := range s.qorder {
-		if s.first[q.seq].Err == "" && q.lateRepl {
-			lateQuery = true
+	var allStreams []*c25Stream
+	for _, s := range sh.all {
+		for _, q := range s.qorder {
+			if s.first[q.seq].Err == "" && q.lateRepl {
+				lateQuery = true
+			}
+			if len(q.recs) > 1 {
+				x.Label("query-with-replies-delivered")
+			}
 		}
-		if len(q.recs) > 1 {
-			x.Label("query-with-replies-delivered")
-		}
+		allStreams = append(allStreams, s.streams...)
 	}
-	for a := 0; a < len(s.streams) && !shared; a++ {
-		for b := a + 1; b < len(s.streams) && !shared; b++ {
-			sa, sb := s.streams[a], s.streams[b]
+	for a := 0; a < len(allStreams) && !shared; a++ {
+		for b := a + 1; b < len(allStreams) && !shared; b++ {
+			sa, sb := allStreams[a], allStreams[b]
 			if sa.filter == sb.filter {
 				continue
 			}
@@ -940,11 +1287,17 @@ func bodyC25(c c25Case, x *vkit.Ctx) {
 	if shared {
 		x.Label("streams-share-events")
 	}
-	x.Labelf("streams=%d", min(len(s.streams), 4))
+	x.Labelf("streams=%d", min(len(allStreams), 4))
 	x.Labelf("queries=%d", min(started, 4))
 	total := 0
-	for _, st := range s.streams {
+	for _, st := range allStreams {
 		total += len(expected[st])
+		for _, e := range expected[st] {
+			if strings.HasPrefix(e, "member-reap|") {
+				x.Label("reap-event-streamed")
+				break
+			}
+		}
 	}
 	x.Labelf("stream-records~%d", min(total/5*5, 30))
 	x.NonTrivial(lateQuery || shared)
